@@ -767,4 +767,138 @@ theorem clientNoSilentMismatch_holds_partial (cl : Int) (ntr : Nat) (fs : List (
   rw [hk]
   exact read_mismatch_never_clean cl fs .fin ks hcl hne
 
+/-! ## Byte-level framing and message composition -/
+
+private theorem appendVarint_ne_nil (v : Nat) (a : List Nat) (h : appendVarint v = some a) : a ≠ [] := by
+  unfold appendVarint at h
+  repeat' split at h
+  all_goals simp at h
+  all_goals subst h
+  all_goals simp
+
+/-- One frame: `readFrameHeader` + payload undoes `writeVarint(type); writeVarint(len); Write(payload)`,
+whatever follows on the stream. -/
+theorem decFrame_encFrame (t : Nat) (p bytes tail : List Nat) (h : encFrame t p = some bytes) :
+    decFrame (bytes ++ tail) = some (t, p, bytes.length) ∧ bytes ≠ [] := by
+  unfold encFrame at h
+  cases ha : appendVarint t with
+  | none => simp [ha] at h
+  | some a =>
+    cases hb : appendVarint p.length with
+    | none => simp [ha, hb] at h
+    | some b =>
+      simp [ha, hb] at h
+      subst h
+      have h1 := NetVerif.Proofs.C22.consume_append t a (b ++ p ++ tail) ha
+      have h2 := NetVerif.Proofs.C22.consume_append p.length b (p ++ tail) hb
+      have hne := appendVarint_ne_nil t a ha
+      refine ⟨?_, by simp [hne]⟩
+      unfold decFrame
+      have e1 : a ++ (b ++ p) ++ tail = a ++ (b ++ p ++ tail) := by simp
+      rw [e1, h1]
+      simp only [List.drop_left]
+      have e2 : b ++ p ++ tail = b ++ (p ++ tail) := by simp
+      rw [e2, h2]
+      simp only [List.drop_left]
+      simp
+      omega
+
+/-- A complete stream of frames splits back into exactly the frames written. -/
+theorem decFrames_encRaw (rs : List (Nat × List Nat)) : ∀ (bytes : List Nat), encRaw rs = some bytes →
+    ∀ fuel, bytes.length ≤ fuel → decFrames fuel bytes = some rs := by
+  induction rs with
+  | nil =>
+    intro bytes h fuel _
+    simp [encRaw] at h
+    subst h
+    cases fuel <;> simp [decFrames]
+  | cons r rs ih =>
+    intro bytes h fuel hf
+    obtain ⟨t, p⟩ := r
+    unfold encRaw at h
+    cases ha : encFrame t p with
+    | none => simp [ha] at h
+    | some a =>
+      cases hb : encRaw rs with
+      | none => simp [ha, hb] at h
+      | some b =>
+        simp [ha, hb] at h
+        subst h
+        obtain ⟨hd, hne⟩ := decFrame_encFrame t p a b ha
+        cases hab : a ++ b with
+        | nil => simp at hab; exact absurd hab.1 hne
+        | cons x xs =>
+          cases fuel with
+          | zero => rw [hab] at hf; simp at hf
+          | succ fuel =>
+            rw [decFrames, ← hab, hd]
+            simp only [List.drop_left]
+            rw [ih b hb fuel (by
+              have : 0 < a.length := List.length_pos_iff.mpr hne
+              simp at hf; omega)]
+
+private theorem decRest_chunks {α : Type} (encF : α → List Nat) (decF : List Nat → Option α)
+    (hF : ∀ f, decF (encF f) = some f) (chunks : List (List Nat)) (tr : Option α) :
+    decRest decF ((chunks.map fun c => (frameTypeData, c)) ++ trailerRaw encF tr) =
+      some (chunks.flatten, tr) := by
+  induction chunks with
+  | nil =>
+    cases tr with
+    | none => simp [decRest, trailerRaw]
+    | some t => simp [decRest, trailerRaw, frameTypeData, frameTypeHeaders, hF]
+  | cons c cs ih =>
+    simp only [List.map_cons, List.cons_append, decRest, if_true, ih, List.flatten_cons]
+
+/-- Message composition: for EVERY chunking of the body into DATA frames, decoding the encoded
+message returns the field section, the concatenated body and the trailers.  The field-section codec
+(QPACK, C33) enters as the hypothesis `decF (encF f) = some f`; `sent` is what the reader's stream
+delivers (QUIC as a reliable ordered byte stream, C19). -/
+theorem decode_encode {α : Type} (encF : α → List Nat) (decF : List Nat → Option α)
+    (hF : ∀ f, decF (encF f) = some f) (fields : α) (chunks : List (List Nat)) (tr : Option α)
+    (sent : List Nat) (hs : encodeMsg encF fields chunks tr = some sent) :
+    decodeMsg decF sent = some ⟨fields, chunks.flatten, tr⟩ := by
+  unfold encodeMsg at hs
+  have := decFrames_encRaw _ sent hs sent.length (Nat.le_refl _)
+  unfold decodeMsg
+  rw [this]
+  simp only [rawOfMsg, List.cons_append, if_true, hF]
+  rw [decRest_chunks encF decF hF]
+
+/-- `encode` is defined (no "varint too large" panic) whenever every payload is shorter than 2^62. -/
+theorem encode_defined {α : Type} (encF : α → List Nat) (fields : α) (chunks : List (List Nat))
+    (tr : Option α) (hf : (encF fields).length ≤ maxVarint) (hc : ∀ c ∈ chunks, c.length ≤ maxVarint)
+    (ht : ∀ t, tr = some t → (encF t).length ≤ maxVarint) :
+    (encodeMsg encF fields chunks tr).isSome := by
+  have encFrame_some : ∀ (t : Nat) (p : List Nat), t ≤ 1 → p.length ≤ maxVarint → (encFrame t p).isSome := by
+    intro t p ht hp
+    unfold encFrame
+    have h1 := (NetVerif.Proofs.C22.append_accepts_iff t).mpr (by unfold maxVarint; omega)
+    have h2 := (NetVerif.Proofs.C22.append_accepts_iff p.length).mpr hp
+    cases ha : appendVarint t <;> cases hb : appendVarint p.length <;> simp_all
+  have encRaw_some : ∀ rs : List (Nat × List Nat), (∀ r ∈ rs, r.1 ≤ 1 ∧ r.2.length ≤ maxVarint) →
+      (encRaw rs).isSome := by
+    intro rs
+    induction rs with
+    | nil => intro _; simp [encRaw]
+    | cons r rs ih =>
+      intro h
+      obtain ⟨t, p⟩ := r
+      have h1 := encFrame_some t p (h (t, p) (by simp)).1 (h (t, p) (by simp)).2
+      have h2 := ih (fun r hr => h r (by simp [hr]))
+      unfold encRaw
+      cases ha : encFrame t p <;> cases hb : encRaw rs <;> simp_all
+  unfold encodeMsg
+  apply encRaw_some
+  intro r hr
+  simp only [rawOfMsg, List.cons_append, List.mem_cons, List.mem_append, List.mem_map] at hr
+  rcases hr with rfl | ⟨c, hc', rfl⟩ | hr
+  · exact ⟨by simp [frameTypeHeaders], hf⟩
+  · exact ⟨by simp [frameTypeData], hc c hc'⟩
+  · cases tr with
+    | none => simp [trailerRaw] at hr
+    | some t =>
+      simp [trailerRaw] at hr
+      subst hr
+      exact ⟨by simp [frameTypeHeaders], ht t rfl⟩
+
 end NetVerif.Proofs.C34
